@@ -3,6 +3,7 @@ import zlib
 
 import kproto
 from val import T, dumps, some
+from props import common
 from props.common import boot_ops, brokers, rand_bytes, rand_topic
 
 SLICE = "ProduceRequest / MessageProduceRequest encoding (KafkaClient::produce_messages, Producer::send_all), gzip and raw-snappy wrappers"
@@ -55,7 +56,7 @@ def big_payload(rng, n):
 
 # payload size classes of a case (bytes of the one or two big payloads it holds); "huge" = one partition set over 64 KiB
 SIZE_CLASSES = {"small": [], "kib": [1024, 1500, 2048, 4095, 4096, 4097], "8k": [8192, 6000, 8191], "20k": [20480, 20000, 16384, 12000],
-                "huge": []}
+                "huge": [], "many": []}
 
 
 def make_case(rng, tier, mode=None, codec=None, size="small"):
@@ -67,6 +68,7 @@ def make_case(rng, tier, mode=None, codec=None, size="small"):
     names = sorted(names)
     topics = {t: [rng.randint(1, nb) for _ in range(rng.randint(1, 4))] for t in names}
     spec = {"brokers": brokers(nb), "topics": topics, "logs": {}}
+    common.maybe_order(rng, spec)
     mode = mode or rng.choice(["client", "producer"])
     codec = rng.choice([0, 1, 2]) if codec is None else codec
     acks = rng.choice([1, 1, 1, 1, -1, 0])
@@ -87,6 +89,9 @@ def make_case(rng, tier, mode=None, codec=None, size="small"):
         n = rng.randint(1, 3) if shape < 0.3 else rng.randint(1, maxrec)
         if size in ("20k", "huge"):
             n = rng.randint(1, 4)
+        if size == "many":
+            # long batches (a sort or a hash-based regrouping of the batch shows only beyond a few dozen records)
+            n = rng.randint(33, 96) if tier == "quick" else rng.randint(33, 400)
         hot = (rng.choice(names), 0)
         for _ in range(n):
             if shape > 0.8 and rng.random() < 0.7:
@@ -95,6 +100,16 @@ def make_case(rng, tier, mode=None, codec=None, size="small"):
                 t = rng.choice(names)
                 p = rng.randrange(len(topics[t]))
             recs.append((t, p, rand_payload(rng), rand_payload(rng)))
+        if size == "many":
+            # destinations dealt round-robin (or at random) over 2..6 partitions, distinct short values
+            dests = sorted(set((t, p) for t in names for p in range(len(topics[t]))))
+            rng.shuffle(dests)
+            dests = dests[:rng.randint(2, 6)] if len(dests) >= 2 else dests
+            rr = rng.random() < 0.6
+            recs = []
+            for i in range(n):
+                t, p = dests[i % len(dests)] if rr else rng.choice(dests)
+                recs.append((t, p, (b"k%d" % i) if rng.random() < 0.5 else None, b"value-%03d" % i))
         if SIZE_CLASSES[size]:
             for _ in range(rng.choice([1, 2]) if size == "kib" else 1):
                 i = rng.randrange(len(recs))
@@ -122,7 +137,8 @@ def make_case(rng, tier, mode=None, codec=None, size="small"):
 def gen(rng, tier):
     quick = tier == "quick"
     plan = [("small", 700 if quick else 17500), ("kib", 200 if quick else 5000), ("8k", 60 if quick else 1500),
-            ("20k", 40 if quick else 1000), ("huge", 12 if quick else 300)]
+            ("20k", 40 if quick else 1000), ("huge", 12 if quick else 300),
+            ("many", 48 if quick else 1200)]
     cases = []
     # the expensive classes first and adjacent, so that the checker's round-robin sharding spreads them over the workers
     for size, n in reversed(plan):
